@@ -306,13 +306,14 @@ static void conf_parse_string_value(struct conf_node_string *cnode)
     orig_value = cnode->value;
     if (!cnode->value)
         cnode->value = xstrdup(cnode->def_value);
+    memset(&newval, 0, sizeof(newval));
     if (!cnode->value) {
+        res = memcmp(&cnode->parsed, &newval, sizeof(newval));
         memset(&cnode->parsed, 0, sizeof(cnode->parsed));
-        if (orig_value && cnode->base.hook)
+        if (res && cnode->base.hook)
             cnode->base.hook(&cnode->base);
         goto out;
     }
-    memset(&newval, 0, sizeof(newval));
 
     switch (cnode->subtype) {
     default:
